@@ -40,9 +40,14 @@ def simplifyTheory (p : Portfolio) (fuel : Nat) (t : Theory) : Option Theory :=
     let (g, ok) := simplifyWith p .fixpoint fuel f
     if ok then some g else none
 
+def translateWith (rep : FormulaRep) (prog : Program) : Theory :=
+  match rep with
+  | .mu => mu prog
+  | .tauStar => tauStar prog
+
 /-- what happens to one program: translate, simplify (HT), gamma, simplify (classic), break -/
 def processTheory (t : StrongTask) (fuel : Nat) (prog : Program) : Option Theory := do
-  let th := match t.rep with | .mu => mu prog | .tauStar => tauStar prog
+  let th := translateWith t.rep prog
   let th ← if t.simplify then simplifyTheory .ht fuel th else some th
   let th := gammaTheory th
   let th ← if t.simplify then simplifyTheory .classic fuel th else some th
